@@ -932,15 +932,15 @@ class ModelMetaClass(type):
             if not has_partition_keys and v.primary_key:
                 v.partition_key = True
                 has_partition_keys = True
-            if v.partition_key:
-                v._partition_key_index = partition_key_index
-                partition_key_index += 1
-
             overriding = column_dict.get(k)
             if overriding:
+                # takes the place of the inherited column: it must not consume a key index of its own
                 v.position = overriding.position
                 v.partition_key = overriding.partition_key
                 v._partition_key_index = overriding._partition_key_index
+            elif v.partition_key:
+                v._partition_key_index = partition_key_index
+                partition_key_index += 1
             _transform_column(k, v)
 
         partition_keys = OrderedDict(k for k in primary_keys.items() if k[1].partition_key)
